@@ -15,6 +15,7 @@ package cron
 
 import (
 	"strconv"
+	"time"
 
 	"github.com/Comcast/rulio/core"
 )
@@ -315,10 +316,12 @@ func VH_C13_hooked(kind, sk, withWhen int) {
 func VH_C10_hooked_expired(kind int) {
 	e := vhC15New(kind, false)
 	r := vhPlainRule()
-	r["expires"] = float64(vhBase/1000000000 + 10)
+	// package cron replays natively against the real clock: times are relative to it
+	vrealclock()
+	r["expires"] = float64(vgetNow()/1000000000 + 2)
 	_, err := e.loc.AddRule(e.ctx, "r0", r)
 	vassume(err == nil)
-	vsetNow(vhBase + 20*1000000000)
+	time.Sleep(3 * time.Second)
 	_, err = e.loc.AddRule(e.ctx, "r0", vhPlainRule())
 	vassert(err == nil, "addrule-succeeds")
 	_, gerr := e.loc.GetRule(e.ctx, "r0")
@@ -327,5 +330,80 @@ func VH_C10_hooked_expired(kind int) {
 	_, cond := e.loc.ProcessEvent(e.ctx, core.Map{"a": "1"})
 	vassert(cond == nil, "event-complete")
 	vassert(len(e.rec.ran) == 1, "fires-iff-live-enabled-matching")
+	vreach("end")
+}
+
+// ---- the real in-process cron behind the hooks ------------------------------------------
+//
+// One InternalCron (over the real Cron loop) serves every location of a System. Two
+// locations hold a scheduled rule under the same id; each tick must run the rule of the
+// location that registered it, once, and removing the rule in one location must leave the
+// other location's job alone.
+
+type vhC15Site struct {
+	ctx *core.Context
+	loc *core.Location
+	rec *vhRec
+}
+
+func vhC15Site_(kind int, name string, ic *InternalCron) *vhC15Site {
+	ctx := core.NewContext("c15" + name)
+	store, err := core.NewMemStorage(ctx)
+	vassume(err == nil)
+	var st core.State
+	if kind == 0 {
+		st, err = core.NewIndexedState(ctx, name, store)
+	} else {
+		st, err = core.NewLinearState(ctx, name, store)
+	}
+	vassume(err == nil)
+	vassume(AddHooks(ctx, ic, st) == nil)
+	loc, err := core.NewLocation(ctx, name, st, nil)
+	vassume(err == nil)
+	rec := &vhRec{}
+	c := core.DefaultControl()
+	c.ActionInterpreters = map[string]core.ActionInterpreter{"vh": rec}
+	loc.SetControl(c)
+	return &vhC15Site{ctx, loc, rec}
+}
+
+// VH_C15_internal: variant 0: both rules stay; 1: location A's rule is removed before it is
+// due; 2: location A's rule is replaced by an event rule before it is due; 3: location A is
+// read-only when its tick arrives.
+func VH_C15_internal(kind, variant int) {
+	vrealclock()
+	vsetNow(vhBase)
+	cr, err := NewCron(NewCronBroadcaster(), 0, "verif", 100)
+	vassume(err == nil)
+	ic := &InternalCron{Cron: cr}
+	a := vhC15Site_(kind, "la", ic)
+	b := vhC15Site_(kind, "lb", ic)
+	cr.Start(a.ctx)
+	vquiesce()
+	_, err = a.loc.AddRule(a.ctx, "r1", vhSchedRule("+300ms"))
+	vassert(err == nil, "addrule-succeeds")
+	_, err = b.loc.AddRule(b.ctx, "r1", vhSchedRule("+400ms"))
+	vassert(err == nil, "addrule-succeeds")
+	switch variant {
+	case 1:
+		_, err = a.loc.RemRule(a.ctx, "r1")
+		vassert(err == nil, "remrule-succeeds")
+	case 2:
+		_, err = a.loc.AddRule(a.ctx, "r1", vhPlainRule())
+		vassert(err == nil, "addrule-succeeds")
+	case 3:
+		// the tick's work partly fails: the one-shot rule cannot be retired from a
+		// location that has become read-only; its action still ran once, not more
+		a.loc.SetReadOnly(a.ctx, true)
+	}
+	vquiesce()
+	if variant == 0 || variant == 3 {
+		vassert(len(a.rec.ran) == 1, "each-location-runs-its-own-scheduled-rule")
+	} else {
+		vassert(len(a.rec.ran) == 0, "removed-rule-no-longer-runs")
+	}
+	vassert(len(b.rec.ran) == 1, "each-location-runs-its-own-scheduled-rule")
+	cr.Kill(a.ctx)
+	vquiesce()
 	vreach("end")
 }
